@@ -493,7 +493,9 @@ def reserve_pattern() -> Tuple[str, str]:
                         and c.func.value.id == "re" and c.args and isinstance(c.args[0], ast.Constant)
                         and isinstance(c.args[0].value, str)):
                     return c.args[0].value, c.func.attr
-    raise C.MachineryError("no re.<f>(<literal>, ...) call found in Parser.handle_reserve")
+    # a tree whose handle_reserve has no such call any more is an observation about the tree, not a failure of the
+    # framework: the caller falls back to the modelled pattern for the reference column and reports the tie as broken
+    return None, None  # type: ignore[return-value]
 
 
 _WS = [" ", " ", "  ", "\t", "\n", "\r", "\x0b", "\x0c", "\x1c", "\x1f", "\x85", "\xa0", "\u1680", "\u2000", "\u200a", "\u2028",
@@ -593,6 +595,9 @@ def rx_run(entries: List[Any]) -> Tuple[List[Dict[str, Any]], List[str], Dict[st
     pattern, func = reserve_pattern()
     _, maxmsg = core_files()
     meta = {"pattern": pattern, "function": func, "pattern_is_the_modelled_one": pattern == MODELLED_PATTERN and func == "search"}
+    if pattern is None:
+        meta["pattern_missing"] = True
+        pattern = MODELLED_PATTERN
     recs = [_rx_work((e, pattern, maxmsg)) for e in entries]
     lines: List[str] = []
     for k, r in enumerate(recs):
